@@ -204,7 +204,7 @@ def run(ctx):
     sres = core.pmap(_support_job, sjobs, chunksize=2)
     supported = [list(j) for j, ok in zip(sjobs, sres) if ok]
     ctx.extra["supported"] = {ff: sorted(f"{g}@{p}" for f, g, p in supported if f == ff) for ff in ffs}
-    mod = os.path.join(core.SPEC, "MC_TitrationGen.tla")
+    mod = os.path.join(ctx.work, "MC_TitrationGen.tla")
     open(mod, "w").write(
         "---- MODULE MC_TitrationGen ----\n(* generated at run time by vlib/checks/c06.py from the current force-field files *)\n"
         "EXTENDS Titration\nGenSupported == {" + ", ".join(f'<<"{a}", "{b}", "{c}">>' for a, b, c in supported) + "}\n====\n")
@@ -215,7 +215,7 @@ def run(ctx):
                 f"  SupportedSet <- GenSupported\n  GuardFix = {CODE_CONSTS['GuardFix']}\n  Emit = {emit}\nINVARIANT {inv}\n")
     try:
         open(cfg, "w").write(cfg_text("FALSE", "WithinSupport"))
-        r = core.run_tlc("MC_TitrationGen", cfg, ctx.work, timeout=600)
+        r = core.run_tlc(mod, cfg, ctx.work, timeout=600)
         core.need_ok(r, "Titration")
         ctx.add_tlc(r, "all residue cells: WithinSupport")
         if r.invariant:
@@ -223,12 +223,12 @@ def run(ctx):
                           "the guard table of the current tree lets a state through that the force-field files of the "
                           "current tree cannot parameterise (or guards a supported one)", {"tlc": r.out[-2500:]})
         open(cfg, "w").write(cfg_text("FALSE", "WithinSupport").replace("GuardFix = TRUE", "GuardFix = FALSE"))
-        r0 = core.run_tlc("MC_TitrationGen", cfg, ctx.work, timeout=600)
+        r0 = core.run_tlc(mod, cfg, ctx.work, timeout=600)
         if not r0.invariant:
             raise core.MachineryError("self-test failed: the historical guard lists do not violate WithinSupport")
         ctx.add_tlc(r0, "historical guard lists: violation found as required")
         open(cfg, "w").write(cfg_text("TRUE", "EmitInv"))
-        r = core.run_tlc("MC_TitrationGen", cfg, ctx.work, workers=4, timeout=600)
+        r = core.run_tlc(mod, cfg, ctx.work, workers=4, timeout=600)
         core.need_ok(r, "Titration emit")
         ctx.add_tlc(r, "cell emission")
     finally:
@@ -296,13 +296,13 @@ def run(ctx):
                            "obs": {k: t["obs"][k] for k in ("patches", "nondef", "warned", "dropped")}} for t in traces])
     try:
         open(cfg, "w").write(cfg_text("FALSE", "Report", spec="TSpec"))
-        mod2 = os.path.join(core.SPEC, "MC_TitrationTraceGen.tla")
+        mod2 = os.path.join(ctx.work, "MC_TitrationTraceGen.tla")
         open(mod2, "w").write("---- MODULE MC_TitrationTraceGen ----\n(* generated at run time by vlib/checks/c06.py *)\n"
                               "EXTENDS TitrationTrace\nGenSupported == {" +
                               ", ".join(f'<<"{a}", "{b}", "{c}">>' for a, b, c in supported) + "}\n====\n")
-        r = core.run_tlc("MC_TitrationTraceGen", cfg, ctx.work, workers=4, env={"TRACE_FILE": tf}, timeout=1200)
+        r = core.run_tlc(mod2, cfg, ctx.work, workers=4, env={"TRACE_FILE": tf}, timeout=1200)
     finally:
-        for m in (mod, os.path.join(core.SPEC, "MC_TitrationTraceGen.tla")):
+        for m in (mod, os.path.join(ctx.work, "MC_TitrationTraceGen.tla")):
             if os.path.exists(m):
                 os.unlink(m)
     core.need_ok(r, "TitrationTrace")
